@@ -7,7 +7,8 @@ ProtectedUntouched, action property Independent), specs/MC_C15.tla (bounded inst
 ErrorsExact, SameClassNoOp, QueriesPure, ReadsRight, JSON export of every transition),
 specs/Trace_C15.tla (validation of recorded histories), specs/RegistryImpl.tla + MC_C15B.tla
 (implementation-shaped model of _registry / _tags / Library.tags; TLC checks that it refines the
-specification, finds the known deviation as a counterexample, and that the proposed repair refines).
+specification, and - control - that the model of the code before the repair of
+fmt-switch-reregister:old-tag-orphaned does not: its counterexample is replayed on the real code).
 
 spec -> code (a) TLC explores the complete state graph of every configuration of the tier and
               exports every transition (world before, call, admitted result + world after).
@@ -16,7 +17,12 @@ spec -> code (a) TLC explores the complete state graph of every configuration of
               exception class, registry.all() of every registry and the tag table of every
               Library are compared before and after the call.
           (b) long seeded walks over the exported graph on ONE persistent set of real objects
-              (thousands of calls on the same registries), compared after every step.
+              (thousands of calls on the same registries), compared after every step.  Where
+              two admitted outcomes of a call have the same projection (see "unspecified
+              zones": re-registration after a formatter switch between two fixed-tag
+              formatters whose tags both have other users) the walk keeps every world of the
+              graph that explains the observations so far, exactly as Trace_C15 does, and
+              fails when none is left.
 code -> spec  seeded random histories on the real objects over wider configurations than TLC
               enumerates (up to 3 registries, 6 names, shared libraries, switching formatters)
               are validated in one TLC batch by Trace_C15.
@@ -503,42 +509,66 @@ def _seq_task(arg):
 
 
 def walk(g: Graph, rnd: random.Random, steps: int) -> Dict[str, Any]:
-    """A long walk over the exported graph on one persistent set of real objects."""
+    """A long walk over the exported graph on one persistent set of real objects.
+
+    Where the specification admits several outcomes of a call (same class registered again after the
+    formatter changed: "no-op" or "moved to the new tag") the projection need not tell them apart
+    at that call - with two fixed-tag formatters, e.g. "component" and "c_x", both tags may have other
+    users, so Library.tags is the same either way and the difference shows only when those users go.
+    Like Trace_C15 (its variable ws) the walk therefore keeps EVERY world of the graph that explains
+    the observations so far (`cands`) and fails only when no admitted outcome of any of them conforms."""
     w = World(g.cfg)
-    s = g.init
+    cands = [g.init]                         # sorted; usually one world
     hist: List[Dict[str, Any]] = []          # the calls since the objects were created, with observations
-    seen = set()
+    tried = set()                            # (world, call) pairs chosen so far (steers the walk)
+    seen = set()                             # ... of which the source world was known exactly (= covered)
     bad = []
-    done = 0
+    done = ambiguous = 0
     try:
         while done < steps:
-            ks = g.by_pre[s]
-            fresh = [k for k in ks if k not in seen]
+            ks = g.by_pre[cands[0]]          # the enabled calls depend on fmt only, which is the same in all
+            fresh = [k for k in ks if k not in tried]
             mut = [k for k in ks if g.groups[k][0]["call"]["op"] in MUTATING]
             k = rnd.choice(fresh) if fresh and rnd.random() < 0.8 else rnd.choice(mut if mut and rnd.random() < 0.8 else ks)
-            seen.add(k)
-            group = g.groups[k]
-            e = group[0]["call"]
+            groups = []
+            for s in cands:
+                if (s, k[1]) not in g.groups:
+                    raise MachineryError(f"{g.cfg['id']}: call {k[1]} is not enabled in every candidate world")
+                tried.add((s, k[1]))
+                groups.append(g.groups[(s, k[1])])
+            if len(cands) == 1:
+                seen.add(k)
+            else:
+                ambiguous += 1
+            e = groups[0][0]["call"]
             obs = w.call(e)
             proj = w.project()
             hist.append(_event(e, obs, proj))
             done += 1
-            i, fails = judge(obs, proj, group)
-            if i is None:
+            nxt, fails = set(), []
+            for group in groups:
+                for row in group:
+                    b = mismatch(obs, proj, row["res"], row["cls"], row["yes"], row["all"], row["post"], row["maybe"])
+                    if b:
+                        fails.append(b)
+                    else:
+                        nxt.add(row["_post"])
+            if not nxt:
+                key = next((x for x in (deviation_key(obs, proj, group) for group in groups) if x), None)
                 bad.append({"stage": "walk", "events": list(hist), "failing": fails,
                             "observed": {"out": obs, "state": proj},
                             "admitted": [{k2: row[k2] for k2 in ("res", "cls", "yes", "all", "post", "maybe")}
-                                         for row in group],
-                            "key": deviation_key(obs, proj, group)})
+                                         for group in groups for row in group],
+                            "key": key})
                 w.dispose()
-                w, s, hist = World(g.cfg), g.init, []        # start over on fresh objects
+                w, cands, hist = World(g.cfg), [g.init], []  # start over on fresh objects
                 if len(bad) >= 5:
                     break
                 continue
-            s = group[i]["_post"]
+            cands = sorted(nxt)
     finally:
         w.dispose()
-    return {"steps": done, "covered": len(seen), "bad": bad}
+    return {"steps": done, "covered": len(seen), "ambiguous": ambiguous, "bad": bad}
 
 
 # ================================================================ spec -> code
@@ -650,6 +680,7 @@ def spec_to_code(chk: Check, cfgs: List[Dict[str, Any]], procs: int, walk_steps:
         chk.add("transition_cases_replayed", res["groups"])
         steps += res["walk"]["steps"]
         chk.add("walk_transitions_covered", res["walk"]["covered"])
+        chk.add("walk_steps_source_world_ambiguous", res["walk"]["ambiguous"])
         cfg = next(c for c in cfgs if c["id"] == res["cid"])
         for b in res["walk"]["bad"]:
             b["cfg"] = cfg
@@ -815,14 +846,16 @@ IMPL_CFG = ("SPECIFICATION ImplSpec\nCONSTANT ImplConfigs <- MCImplConfigs\nCONS
 
 def impl_model(chk: Check, cfgs: List[Dict[str, Any]]) -> None:
     """specs/RegistryImpl.tla models the three tables of component_registry.py.  TLC checks that it
-    refines the specification (a) as the code is, on the static configurations, (b) as the code is,
-    with a switching formatter - a counterexample here is replayed on the real code and only the
-    real outcome counts (section 2.4 of DESIGN.md: B # A is a design-level counterexample, R # A a
-    violation, R = A with B # R model drift), (c) with the proposed repair, on everything."""
+    refines the specification (a) as the code is (Fix = TRUE: register() releases the old tag of a
+    component re-registered under another formatter, commit 57c7c8f), on every configuration - a
+    counterexample is replayed on the real code and only the real outcome counts (section 2.4 of
+    DESIGN.md: B # A is a design-level counterexample, R # A a violation, R = A with B # R model
+    drift); (b) control: as the code was before 57c7c8f (Fix = FALSE), with a switching formatter -
+    TLC must find the old deviation, and the real code, driven through that counterexample, must
+    conform (if it reproduces it, the deviation is back: violation)."""
     w = workdir("c15b")
-    static = [c for c in cfgs if not any(f for _, f in c["fmts"])]
     switching = [c for c in cfgs if any(f for _, f in c["fmts"])]
-    runs = [("as-is/static", static, "FALSE"), ("as-is/switching", switching, "FALSE"), ("repaired/all", cfgs, "TRUE")]
+    runs = [("current/all", cfgs, "TRUE"), ("before-57c7c8f/switching", switching, "FALSE")]
     runs = [r for r in runs if r[1]]
 
     def one(i_run):
@@ -844,6 +877,9 @@ def impl_model(chk: Check, cfgs: List[Dict[str, Any]]) -> None:
         chk.add("impl_states", r.distinct)
         chk.add("impl_transitions", r.generated)
         if not r.violated:
+            if fix == "FALSE":
+                raise MachineryError(f"MC_C15B {name}: the control model (no release of the old tag) refines the "
+                                     "specification - the refinement check has lost its teeth")
             continue
         # TLC's counterexample: the calls, in order, and the configuration it happened in
         calls = []
@@ -856,8 +892,6 @@ def impl_model(chk: Check, cfgs: List[Dict[str, Any]]) -> None:
         if not calls or cfg is None:
             raise MachineryError(f"MC_C15B {name}: cannot read the counterexample\n" + r.out[-1500:])
         info[name]["counterexample"] = {"cfg": cfg["id"], "calls": calls}
-        if fix == "TRUE":
-            continue                                  # says something about the repair, not about the code
         # the model leaves out nothing that could hide the divergence: extend the history by what makes
         # it observable (drop everything) and let the real code decide
         hist = calls + [{"op": "clear", "r": r_, "n": "-", "c": "-"} for r_ in cfg["regs"]]
@@ -871,14 +905,17 @@ def impl_model(chk: Check, cfgs: List[Dict[str, Any]]) -> None:
             wd.dispose()
         tr = {"id": 1, "cfg": cfg, "events": evs}
         r1, v1 = run_trace_tlc(w, f"cex{len(info)}", [tr])
+        chk.count(["impl-counterexample", name, cfg["id"], hist])
         if v1 is not None and 1 in v1["accepted"]:
-            chk.add("model_drift", 1)                 # the real code conforms: the model is out of date
-            info[name]["real_code"] = "conforms (model drift)"
+            if fix == "FALSE":                        # expected: the code no longer is this model
+                info[name]["real_code"] = "conforms (the deviation of the old code is gone)"
+            else:
+                chk.add("model_drift", 1)             # the real code conforms: the model is out of date
+                info[name]["real_code"] = "conforms (model drift)"
         else:
             why = {"violated": r1.violated} if v1 is None else v1["rejected"][1]
             key = classify(w, f"cexdev{len(info)}", [tr]).get(1)
             info[name]["real_code"] = f"reproduces ({key})"
-            chk.count(["impl-counterexample", cfg["id"], hist])
             chk.violation({"kind": "trace", "cfg": cfg, "events": evs, "from": "TLC counterexample of MC_C15B " + name},
                           why, key=key)
     chk.cov["impl_model"] = info
@@ -1198,6 +1235,18 @@ def selftest(tier: str) -> int:
             del self._registry[name]
         return patch((CR, "unregister", unregister))
 
+    def reregister_keeps_old_tag():
+        # the code before commit 57c7c8f: the same class registered again after the formatter changed
+        # gets the new tag, the reference on the old tag is never released
+        def register(self, name, component):
+            existing = self._registry.get(name)
+            if existing and existing.cls._class_hash != component._class_hash:
+                raise cr.AlreadyRegistered(name)
+            entry = self._register_to_library(name, component)
+            self._tags.setdefault(entry.tag, set()).add(name)
+            self._registry[name] = entry
+        return patch((CR, "register", register))
+
     def unregister_removes_protected_builtin():
         # shorthand: unregistering a name drops the tag of that name even if it is someone else's
         def unregister(self, name):
@@ -1240,6 +1289,7 @@ def selftest(tier: str) -> int:
               ("entry-stored-before-protected-check", entry_stored_before_tag_check),
               ("protected-name-registered-without-tag", protected_name_registered_without_tag),
               ("unregister-uses-current-formatter", unregister_uses_current_formatter),
+              ("reregister-after-fmt-switch-keeps-old-tag", reregister_keeps_old_tag),
               ("unregister-drops-foreign-tag-of-same-name", unregister_removes_protected_builtin),
               ("dotted-name-keeps-its-tag (recorded traces only)", dotted_name_keeps_its_tag)]
     rc = run_probes(PID, probes, body)
